@@ -125,6 +125,11 @@ func verifC08Aftermath(nThin, sendBuffer int) {
 	if !b.returned {
 		vFail("C08.result-not-available-after-context-end")
 	}
+	// C05: the peer never answered the second call - a reply it reports can only be the late
+	// reply to the first one
+	if kb != ckUnicast {
+		vAssert(b.err != nil, "C05.late-reply-observed-by-another-call")
+	}
 	vReach("second-call-returned")
 }
 
